@@ -29,14 +29,14 @@ func codecLayerCallee(p *Prog, call ssa.CallInstruction) (string, int) {
 	name := ""
 	var sig *types.Signature
 	if cc.IsInvoke() {
-		name = cc.Method.Name()
+		name = N(cc.Method)
 		sig = cc.Method.Type().(*types.Signature)
 	} else if sc := cc.StaticCallee(); sc != nil {
 		sc = p.unwrap(sc)
 		if !p.inScope(sc) {
 			return "", -1
 		}
-		name = sc.Name()
+		name = N(sc)
 		sig = sc.Signature
 	} else {
 		return "", -1
@@ -111,7 +111,7 @@ func runC09(c *Ctx) {
 			for cond, truth := range cp.Truth {
 				if ic, ok := cond.(*ssa.Call); ok && IsCallTo(ic, "errors.Is") && !truth && cp.Deref(ic.Call.Args[0]) == errV {
 					if g, ok := ic.Call.Args[1].(*ssa.UnOp); ok {
-						if gl, ok := g.X.(*ssa.Global); ok && gl.Name() == "EOF" {
+						if gl, ok := g.X.(*ssa.Global); ok && N(gl) == "EOF" {
 							notEOF = true
 						}
 					}
@@ -144,7 +144,7 @@ func runC09(c *Ctx) {
 				if !ok || !IsCallTo(ic, "errors.Is") || ic.Call.Args[0] != ssa.Value(cv) {
 					return
 				}
-				first := fn.Name() == "handle" // the only read in handle is the leading message
+				first := N(fn) == "handle" // the only read in handle is the leading message
 				if !first {
 					for _, ref := range *ic.Referrers() {
 						if iff, ok := ref.(*ssa.If); ok {
@@ -154,7 +154,7 @@ func runC09(c *Ctx) {
 					// must be conjoined with !consumedFirst
 					for _, f := range FactsAt(ic.Block()) {
 						if !f.Truth {
-							if fl := LoadedField(f.Cond); fl != nil && fl.Name() == "consumedFirst" {
+							if fl := LoadedField(f.Cond); fl != nil && N(fl) == "consumedFirst" {
 								first = true
 							}
 						}
@@ -193,7 +193,7 @@ func runC09(c *Ctx) {
 				if k, isK := ConstInt(cmp.Y); !isK || k != 0 {
 					continue
 				}
-				if fl := LoadedField(cmp.X); fl != nil && strings.Contains(strings.ToLower(fl.Name()), "remaining") {
+				if fl := LoadedField(cmp.X); fl != nil && strings.Contains(strings.ToLower(N(fl)), "remaining") {
 					reported++
 				}
 				if b := bufferOfLen(cmp.X); b != nil {
@@ -266,7 +266,7 @@ func runC09(c *Ctx) {
 		if fv, isF := iff.Cond.(*ssa.Field); isF {
 			f = FieldOfVal(fv)
 		}
-		if f != nil && f.Name() == "trailer" {
+		if f != nil && N(f) == "trailer" {
 			good, _ := succReturnsOnlyErrors(pre, iff.Block().Succs[0], errorResultIndex(pre.Signature))
 			okTr = good
 		}
@@ -286,7 +286,7 @@ func runC09(c *Ctx) {
 			}
 		case *ssa.Store:
 			if fa, ok := x.Addr.(*ssa.FieldAddr); ok {
-				n := FieldOfAddr(fa).Name()
+				n := N(FieldOfAddr(fa))
 				if (n == "err" || n == "httpCode") && !IsNilConst(x.Val) {
 					return true
 				}
@@ -342,7 +342,7 @@ func runC09(c *Ctx) {
 						if _, isAl := r.Addr.(*ssa.Alloc); isAl {
 							// spilled named result / local: treat as returned when a return loads it
 							returnedDirect = true
-						} else if fa, ok := r.Addr.(*ssa.FieldAddr); ok && FieldOfAddr(fa).Name() == "err" {
+						} else if fa, ok := r.Addr.(*ssa.FieldAddr); ok && N(FieldOfAddr(fa)) == "err" {
 							storedToCell = true
 						}
 					case *ssa.BinOp:
